@@ -512,10 +512,15 @@ def gen_tie_api(tier, rng):
     def val(lean_path):
         n = 150 if tier == 'quick' else 1200
         cases = [(op, f) for op, f, _ in gens.reconcile_cases(rng, n) if op == 'reconcile']
+        # the pair form on the first two trains, merge on lists with DIFFERENT edges (the interval is the first train's),
+        # and the empty list (both functions raise: `min([])`, `np.concatenate([])`)
+        cases += [('reconcile_bi', f[:4]) for op, f in list(cases) if len(f) >= 4][:n // 2]
+        cases += [('merge', f) for op, f in list(cases) if op == 'reconcile'][:n // 2]
+        cases += [('reconcile', [gens.kw_field(), gens.idx_field(None)]), ('merge', [gens.kw_field(), gens.idx_field(None)])]
         cases += [(op, f) for op, f, _ in gens.misc_cases(rng, n) if op == 'merge']
         return _validate_ops(cases, lean_path, 'GenApiMain.lean')
     r = _family('api', os.path.join(LEAN_DIR, 'PySpikeVerif', 'Gen', 'Api.lean'), 'reconcile / merge',
-                ['pyspike/spikes.py (reconcile_spike_trains, reconcile_spike_trains_bi, merge_spike_trains)', 'pyspike/SpikeTrain.py (digest only: the constructor is modelled)'], val)
+                ['pyspike/spikes.py (reconcile_spike_trains, reconcile_spike_trains_bi, merge_spike_trains)', 'pyspike/SpikeTrain.py (the constructor is modelled by mkTrain; its __init__ is pinned by a digest of its normalised source)'], val)
     r['translator'] = 'harness/py2lean_api.py'
     return r
 
